@@ -94,6 +94,30 @@ Theorem C17_receiver_one_finished_per_mark : forall FS resp_len req_len now (s :
   (exists p, r_out s' = OPdu p :: r_out s /\ o_payload p = PFinished f) /\ r_fin s' = Some (f, false).
 Proof. exact r_send_finished_once. Qed.
 
+(* the receiver's NAK rounds: progress since the previous round (received_file_size moved) resets
+   the NAK count and cannot fault; without progress the count is kept and the round repeats with one
+   NAK PDU until the limit, where - and only where - NakLimitReached is declared *)
+Theorem C17_nak_round_progress_resets : forall FS resp_len req_len now (s : rstate FS),
+  r_nak_recvd s <> r_recvd s ->
+  let s' := send_naks resp_len req_len now s in
+  t_nak (r_timer s') = c_reset now (t_nak (r_timer s)) /\ r_nak_recvd s' = r_recvd s /\
+  r_cond s' = r_cond s /\ r_phase s' = r_phase s /\ r_state s' = r_state s /\
+  exists p, r_out s' = OPdu p :: r_out s /\ (exists n, o_payload p = PNakP n).
+Proof. exact r_nak_round_progress. Qed.
+Theorem C17_nak_round_repeats_below_limit : forall FS resp_len req_len now (s : rstate FS),
+  r_nak_recvd s = r_recvd s -> snd (c_limit_reached now (t_nak (r_timer s))) = false ->
+  let s' := send_naks resp_len req_len now s in
+  t_nak (r_timer s') = c_restart now (c_update now (t_nak (r_timer s))) /\
+  r_cond s' = r_cond s /\ r_phase s' = r_phase s /\ r_state s' = r_state s /\
+  exists p, r_out s' = OPdu p :: r_out s /\ (exists n, o_payload p = PNakP n).
+Proof. exact r_nak_round_repeat. Qed.
+(* sender: the ACK(EOF) clears and stops the ACK timer *)
+Theorem C17_sender_ack_clears_count : forall now a (s : sstate),
+  cfg_mode (s_cfg s) = Acked -> ack_dir a = DirEoF ->
+  let s' := fst (s_process_pdu now (PAck a) s) in
+  c_count (t_ack (s_timer s')) = 0 /\ c_paused (t_ack (s_timer s')) = true.
+Proof. exact s_ack_eof_clears. Qed.
+
 (* non-vacuity: 3 s timeout, limit 2, armed at t = 1 s: the limit is reached at exactly 7 s *)
 Example C17_nonvacuous :
   let c := c_reset 1000 (c_new 0 3000 2) in
@@ -114,3 +138,6 @@ Print Assumptions C17_sender_no_expiry_quiet.
 Print Assumptions C17_sender_one_eof_per_mark.
 Print Assumptions C17_receiver_expiry_marks_finished.
 Print Assumptions C17_receiver_one_finished_per_mark.
+Print Assumptions C17_nak_round_progress_resets.
+Print Assumptions C17_nak_round_repeats_below_limit.
+Print Assumptions C17_sender_ack_clears_count.
